@@ -39,6 +39,26 @@ DESIGN_INVS = ["FilterIsBayes", "DictVecAgree", "BeliefNormalised", "ObsNormalis
 # (DESIGN 5.1): each update costs a few ulp (1e-16) -> 1e-9 is 6 orders of magnitude of head room
 TOL = 1e-9
 
+
+
+def rel_close(x, exact):
+    """Comparison of a probability that may be tiny (predictive probabilities ~1e-8 at tiny-mass beliefs).
+
+    Derivation: every compared quantity is a sum of <= N*N products of three non-negative float64
+    numbers (belief, transition, observation probability), each factor being the correctly rounded
+    value of an exact rational or the output of such a computation: no cancellation, so the relative
+    error is bounded by (factors + additions) * 2^-53 per filter step, < 50 * 1.2e-16 * 5 steps
+    ~ 3e-14.  1e-9 relative leaves 4 orders of magnitude of head room; the absolute floor 1e-18 only
+    matters when exact = 0, where a zero factor makes the float result exactly 0.0 (the smallest
+    non-zero exact value of the family is > 1e-11)."""
+    return abs(x - exact) <= 1e-9 * abs(exact) + 1e-18
+
+
+def agree(x, y):
+    """Two float results of the same exact quantity (each within rel_close of it)."""
+    return abs(x - y) <= 2e-9 * max(abs(x), abs(y)) + 2e-18
+
+
 LABELS = ["int", "str", "tuple", "frozendict", "mixed"]
 DISTS = ["dict", "dict_zeros", "det", "uniform"]
 BREPS = ["returned", "zeros", "dict", "native"]
@@ -92,6 +112,25 @@ def make_cases(rng, n, tier):
         m["DB"] = min(m["D"], 3)
         m["machs"] = ["filter", "bmdp"]
         cases.append({"m": m, "rep": rep})
+    # "tiny-mass" cases: a possible observation of probability <= 8e-9 (planted), depth 1, explicit lists,
+    # no look-ahead table at the leaves (LL = 0) so that every product stays below 2^30
+    n_tiny = max(8, n // 5)
+    while len(cases) < n + n_tiny:
+        PD, OD = rng.choice([2, 3, 4]), rng.choice([2, 3, 4])
+        n_abs = rng.choice([0, 0, 1])
+        m = pb.rand_pomdp(rng, n_na=rng.choice([2, 2, 3]), n_abs=n_abs,
+                          K=rng.choice([1, 2, 3]), NO=rng.choice([2, 2, 3]), PD=PD, OD=OD, ghost=rng.random() < 0.3,
+                          ID=rng.choice([2, 3, 4]), obs_kind="random")
+        m["GN"], m["GD"] = rng.choice([(1, 2), (9, 10), (1, 1)])
+        t, a, o, beliefs = pb.plant_rare_observation(rng, m)
+        rep = dict(labels=rng.choice(LABELS), alabels=rng.choice(LABELS), olabels=rng.choice(LABELS),
+                   explicit_list=True, dist=rng.choice(DISTS), odist=rng.choice(DISTS),
+                   outside=None, brep=rng.choice(BREPS), keyperm=rng.random() < 0.3)
+        m["beliefs"] = [list(m["p0"])] + beliefs
+        m["D"], m["DB"], m["LL"] = 1, 1, 0
+        m["machs"] = ["filter", "bmdp"]
+        m["planted"] = {"state": t, "action": a, "observation": o}
+        cases.append({"m": m, "rep": rep})
     return cases
 
 
@@ -116,6 +155,8 @@ def shape_of(w, m):
     tag = "vertex" if len(supp) == 1 else ("zero-component" if len(supp) < len(w) else "interior")
     if any(m["abs"][s] for s in supp):
         tag += "+absorbing-mass"
+    if min(w[s] for s in supp) * 10 ** 6 < sum(w):
+        tag += "+tiny-mass"
     return tag
 
 
@@ -306,8 +347,11 @@ class Judge:
             eb = exact_belief(w)
             shape = shape_of(w, m)
             la = rec["la"]
-            den = la["den"]
             inp = self.belief_input(rd, None) if h else rd
+            if not la:                      # tiny-mass case: a leaf without look-ahead table (spec: HasLA)
+                ctx.count("tiny_mass_leaves_without_lookahead")
+                continue
+            den = la["den"]
             # ---- predictive observation distribution (dictionary and vector)
             for a in range(K):
                 exp = [F(la["obs"][a][o], den) for o in range(NO)]
@@ -320,7 +364,7 @@ class Judge:
                         self.fail("predictive_observation_dist", "not-normalised", shape, f"sums to {tot!r}", rec)
                     for o in range(NO):
                         r = pod.prob(B.olabel[o])
-                        if not abs(r - float(exp[o])) <= TOL:
+                        if not rel_close(r, float(exp[o])):
                             self.fail("predictive_observation_dist", "marginal", shape,
                                       f"Pr(obs {o} | b, action {a}) = {r!r}, exact marginal {exp[o]}", rec)
                             break
@@ -336,11 +380,11 @@ class Judge:
                             for oi in range(len(self.ol)):
                                 o = next((o for o, i in self.opos.items() if i == oi), None)
                                 e = float(exp[o]) if o is not None else 0.0
-                                if not abs(float(pov[oi]) - e) <= TOL:
+                                if not rel_close(float(pov[oi]), e):
                                     self.fail("predictive_observation_vec", "marginal", shape,
                                               f"Pr(obs {o} | b, action {a}) = {pov[oi]!r}, exact marginal {e}", rec)
                                     break
-                            if pod is not None and any(abs(pod.prob(self.ol[oi]) - float(pov[oi])) > 2 * TOL for oi in range(len(self.ol))):
+                            if pod is not None and any(not agree(pod.prob(self.ol[oi]), float(pov[oi])) for oi in range(len(self.ol))):
                                 self.fail("predictive_observation", "dict-vec-agree", shape,
                                           f"dictionary {dict(pod)} vs vector {pov.tolist()}", rec)
             # ---- one filter step per (action, observation)
@@ -356,6 +400,11 @@ class Judge:
                         if not live:
                             ctx.count("impossible_observation_steps")
                         oshape = shape + ("" if live else "+impossible-observation")
+                        if live and 0 < la["obs"][a][o] * 10 ** 6 < den:
+                            oshape += "+rare-observation"
+                            ctx.count("rare_observation_steps(0<Pr<=1e-6)")
+                            if la["obs"][a][o] * 10 ** 8 <= den:
+                                ctx.count("rare_observation_steps(0<Pr<=1e-8)")
                         # dictionary version
                         nd = self.call("state_estimator", oshape, child, p.state_estimator, inp, B.alabel[a], B.olabel[o])
                         okd = nd is not None
@@ -469,6 +518,8 @@ class Judge:
             w = rec["bv"]
             shape = shape_of(w, m)
             la = rec["la"]
+            if not la:
+                continue
             # ---- absorption
             ab = self.call("BeliefMDP.is_absorbing", shape, rec, bm.is_absorbing, rk)
             if ab is not None and bool(ab) != bool(la["absb"]):
@@ -506,9 +557,11 @@ class Judge:
                             rowok = False
                         for n in pos:
                             mean[n] += pr * prs[pos[n]]
-                        j = next((j for j, (e, _, _) in enumerate(succ)
-                                  if all(abs(prs[pos[n]] - float(e[n])) <= TOL for n in pos)), None)
-                        if j is None:
+                        # nearest exact posterior (two distinct exact posteriors of a tiny-mass belief can be
+                        # closer than TOL to each other; their probabilities are then compared as one cluster)
+                        dist = [max(abs(prs[pos[n]] - float(e[n])) for n in pos) for e, _, _ in succ]
+                        j = min(range(len(succ)), key=lambda x: dist[x]) if succ else None
+                        if j is None or not dist[j] <= TOL:
                             self.fail("BeliefMDP.next_state_dist", "successor-is-not-a-bayes-posterior", shape,
                                       f"successor {prs} (p={pr}) is none of the exact posteriors {[[str(x) for x in e] for e, _, _ in succ]}", rec)
                             rowok = False
@@ -522,7 +575,20 @@ class Judge:
                         self.fail("BeliefMDP.next_state_dist", "mean-is-not-the-state-prediction", shape,
                                   f"mean {mean} vs prediction {[str(x) for x in pe]}", rec)
                         rowok = False
-                    if rowok and any(abs(got[j] - float(succ[j][1])) > TOL for j in range(len(succ))):
+                    # clusters of exact successors that floats cannot be expected to separate
+                    cl = list(range(len(succ)))
+                    for x in range(len(succ)):
+                        for y in range(x):
+                            if max(abs(float(succ[x][0][n]) - float(succ[y][0][n])) for n in range(N)) <= 1e-6:
+                                cx, cy = cl[x], cl[y]
+                                cl = [cy if c == cx else c for c in cl]
+                    gotc, expc = {}, {}
+                    for x in range(len(succ)):
+                        gotc[cl[x]] = gotc.get(cl[x], 0.0) + got[x]
+                        expc[cl[x]] = expc.get(cl[x], 0) + succ[x][1]
+                    if len(expc) != len(succ):
+                        ctx.count("belief_mdp_rows_with_nearly_equal_exact_posteriors")
+                    if rowok and any(not rel_close(gotc[c], float(expc[c])) for c in expc):
                         self.fail("BeliefMDP.next_state_dist", "transition-probability", shape,
                                   f"probabilities {got} vs exact {[str(x[1]) for x in succ]}", rec)
                         rowok = False
@@ -622,7 +688,7 @@ def judge_cases(ctx, cases, *, tamper=None, mutate_records=None):
         if not recs:
             raise TLCFailure(f"no records for case {i}")
         for key, r in recs.items():
-            if r["phase"] == "live":
+            if r["phase"] == "live" and r["la"]:
                 nx += 1
                 if nx % 10 == 0:
                     crosscheck(i, c["m"], r)
